@@ -88,7 +88,6 @@ class WorkerMailbox:
 
     def deposit_result(self, result: RuntimeResult) -> None:
         """Store the result in the mailbox."""
-        self.num_results += 1
         slot_id = result.return_address.mailbox_slot
 
         # Record as fresh result
@@ -100,6 +99,10 @@ class WorkerMailbox:
             self.result = result.result
         else:
             self.result[slot_id] = result.result
+
+        # Count the result last: the main thread reads `ready` without
+        # the lock and must not see a ready mailbox with a missing value.
+        self.num_results += 1
 
 
 class Worker:
